@@ -35,7 +35,10 @@ class Outcome:
                 try:
                     v = ["json", json.loads(b[3:] if b.startswith(b"T1:") else b)]
                 except ValueError:
-                    pass
+                    v = ["text-multiset", "".join(sorted(b.decode("utf-8", "replace")))]
+            elif unordered and isinstance(v, str):
+                # text built from an unordered input (str(set)): order-free rendering
+                v = ["text-multiset", "".join(sorted(v))]
             return ["ok", model.canon(v, unordered=unordered)]
         return ["exc"] if unordered else ["exc", type(self.exc).__name__]
 
